@@ -435,13 +435,13 @@ def checkTraffic (cfg : Cfg) (a : A) (evs : List Ev) : A :=
 
 /-- the part of a round after the last frame read: periodic messages -/
 def tail (cfg : Cfg) (a : A) (evs : List Ev) : A :=
-  let tick1 := cfg.timing && a.now - a.tTiming > 900
+  let tick1 := cfg.timing && a.now - a.tTiming > cfg.pTiming
   let a := if tick1 then checkTiming cfg a evs else a.chk (!(sends evs).any (fun p => match p.2.2.body with | .timing .. => true | _ => false)) "C18" "TIMING_MESSAGE sent before its period elapsed"
   let a := if tick1 then { a with pubT := [], recvT := [], tTiming := a.now } else a
-  let tick2 := a.now - a.tTraffic > 1000
+  let tick2 := a.now - a.tTraffic > cfg.pTraffic
   let a := if tick2 then checkTraffic cfg a evs else a
   let a := if tick2 then { a with pubR := [], recvR := [], tTraffic := a.now, seq := a.seq + 1 } else a
-  let a := if a.now - a.tInfo > 5000 then { a with tInfo := a.now } else a
+  let a := if a.now - a.tInfo > cfg.pInfo then { a with tInfo := a.now } else a
   a
 
 /-! ### one round -/
